@@ -442,8 +442,6 @@ def diff64 (base pair : Nat) : Int :=
 /-- `size` is an `unsigned`: `pair - base` wraps at 2^32 before it is widened to `int64_t` -/
 def diff32 (base pair : Nat) : Int := ((pair + 4294967296 - base % 4294967296) % 4294967296 : Nat)
 
-def cmpInt (a b : Int) : Int := if a = b then 0 else if a > b then 1 else -1
-
 /-- `cmp_diff_<key>`: column ≠ 2 compares the base fields, column 2 the (absolute) differences -/
 def Key.cmpDiff (column : Nat) (absolute : Bool) (k : Key) (a b : DRow) : Int :=
   if k = .func then cmpNat b.base.key a.base.key
@@ -452,8 +450,12 @@ def Key.cmpDiff (column : Nat) (absolute : Bool) (k : Key) (a b : DRow) : Int :=
     let da := if k = .size then diff32 (k.val a.base) (k.val a.pair) else diff64 (k.val a.base) (k.val a.pair)
     let db := if k = .size then diff32 (k.val b.base) (k.val b.pair) else diff64 (k.val b.base) (k.val b.pair)
     if da = db then 0
-    else if absolute then cmpInt (if da > 0 then da else -da) (if db > 0 then db else -db)
-    else cmpInt da db
+    else
+      -- after taking absolute values there is no test for equality any more (report.c:367):
+      -- differences +d and -d compare as "smaller" in both directions
+      let da' := if absolute then (if da > 0 then da else -da) else da
+      let db' := if absolute then (if db > 0 then db else -db) else db
+      if da' > db' then 1 else -1
 
 def cmpChainD (cmps : List (DRow → DRow → Int)) (a b : DRow) : Int :=
   match cmps with
